@@ -578,27 +578,30 @@ def h_pow(I, args, kw, st, n):
 
 
 def h_stack(I, args, kw, st, n):
-    """np.stack(list of 1-D arrays, axis=1) -> 2-D array whose column k is the k-th list element."""
+    """np.stack(list of equal-shaped arrays, axis): a new axis whose position k selects the k-th list element
+    (1-D inputs: axis 0 or 1; N-D inputs: axis 0)."""
     from .absint import _concrete_seq
     cols = _concrete_seq(args[0])
     ax = kw.get("axis", args[1] if len(args) > 1 else X.const(0))
     ax = to_x(ax).as_int() if to_x(ax) is not None else None
     if cols is None or ax not in (0, 1): return Opaque("np.stack")
     arrs = [_arr(c, st) if isinstance(c, LocalArr) else as_arr(c) for c in cols]
-    if any(a is None or is_opaque(a) or a.ndim != 1 for a in arrs): return Opaque("np.stack of non 1-D arrays")
-    nv, cnt = arrs[0].axes[0]
+    if any(a is None or is_opaque(a) for a in arrs): return Opaque("np.stack of non-arrays")
+    nd = arrs[0].ndim
+    if any(a.ndim != nd for a in arrs) or (nd != 1 and ax != 0): return Opaque("np.stack of arrays of different rank / unsupported axis")
+    base_axes = [(fresh("s"), c) for _, c in arrs[0].axes]
     kv = fresh("k")
     body = None
     for i in range(len(arrs) - 1, -1, -1):
         a = arrs[i]
-        if not a.axes[0][1].eq(cnt): return Opaque("np.stack of unequal lengths")
-        b = subst_val(a.body, {a.axes[0][0]: X.var(nv)})
+        if not all(ca.eq(cb) for (_, ca), (_, cb) in zip(a.axes, base_axes)): return Opaque("np.stack of unequal shapes")
+        b = subst_val(a.body, {va: X.var(vb) for (va, _), (vb, _) in zip(a.axes, base_axes)})
         if body is None: body = b
         else:
             c = lm._cond_eq(X.var(kv), X.const(i), f"{kv}=={i}")
             body = mk_pv(c, b, body)
-    axes = [(nv, cnt), (kv, X.const(len(arrs)))]
-    if ax == 0: axes.reverse()
+    if nd == 1 and ax == 1: axes = [base_axes[0], (kv, X.const(len(arrs)))]
+    else: axes = [(kv, X.const(len(arrs)))] + base_axes
     return Arr(axes, body)
 
 
